@@ -409,6 +409,40 @@ except KeyError:
 ''', 'V_k = V_fac(V_sel)', 'return (V_cfg, V_k, V_mix)'],
              binding={'V_cfg': ps[0], 'V_field': ps[1], 'V_fac': ps[2]},
              under=['len(V_split) == 1', "V_sel == 'custom'"])
+        # 'a+b+base': the base class is the LAST component, the mixins are the others in the order written (the order is
+        # the method resolution order of the class that is built)
+        fl = mkflow(ix, site)
+        bm = calls(fl, 'build_new_mixed_class')
+        stmt_m = "selector 'm1+m2+base': base = factory(last component), mixins = the other components in written order"
+        if len(bm) != 1 or len(bm[0].args) != 2:
+            R.error('3.determine.mixins', 'PERM', site, stmt_m, '%d build_new_mixed_class calls' % len(bm), loc=f.loc())
+        else:
+            base_, mix_ = bm[0].args
+            ma = atom_of(fl, mix_)
+            why = []
+            parts = [a_ for a_ in mix_.all_atoms() if fl.tab.atoms[a_].head in ('call', 'mcall') and fl.tab.atoms[a_].extra and
+                     fl.tab.atoms[a_].extra[0] == 'fn:split']
+            rev = _popped_from_end(f, bm[0].node.args[1])
+            if rev:
+                R.fail('3.determine.mixins', 'PERM', site, stmt_m, 'mixins collected in reverse order',
+                       'the list handed to build_new_mixed_class is filled by `%s` inside `while %s:` - list.pop() takes from '
+                       'the END, so the mixins are applied in the reverse of the order written in the selector' % rev,
+                       f.loc(bm[0].node))
+            elif mix_.mentions(lambda a: a.head in ('mutated', 'phi')) or ma is None or ma.head != 'comp' or not parts:
+                R.error('3.determine.mixins', 'PERM', site, stmt_m,
+                        'the list of mixins is built by statements this rule cannot follow: %s' % fmt(fl, mix_)[:200], loc=f.loc())
+            else:
+                from sa.algebra import p_atom
+                SP = RF(fl.tab, p_atom(parts[0]))
+                it_ = ma.args[1]
+                if not fl.tab.equal(it_, spec(fl, 'S[:-1]', {'S': SP})):
+                    why.append('mixins are taken from %s, not from the components before the last in written order' % fmt(fl, it_)[:120])
+                if not fl.tab.equal(base_, spec(fl, '%s(S[-1])' % ps[2], {'S': SP})):
+                    why.append('base class is %s' % fmt(fl, base_)[:120])
+                if len(ma.args) > 3 or (len(ma.args) == 3 and atom_of(fl, ma.args[2]) is not None and atom_of(fl, ma.args[2]).args):
+                    why.append('components are filtered')
+                R.check('3.determine.mixins', 'PERM', site, stmt_m, not why, key='; '.join(why), detail='; '.join(why),
+                        loc=f.loc(bm[0].node))
     # constructors reached through klass(**config): no **kwargs sink
     direct = ['star', 'planet', 'optimizer', 'observation', 'instrument']
     for fam in direct + ['temperature', 'pressure', 'chemistry', 'gas', 'model', 'contribution']:
@@ -604,6 +638,23 @@ def cli_binner(ix, R):
                 'command line: bin_type native -> model grid, observed -> observation grid, manual -> the given grid, '
                 'no [Binning] -> observation grid if an observation is loaded else the model grid (%d cases)' % len(cases),
                 not why, key='; '.join(why), detail='; '.join(why), loc=f.loc(gi.node))
+
+
+def _popped_from_end(f, arg):
+    """(append text, drained list) when the list named by `arg` is filled by  while xs: out.append(g(xs.pop()))"""
+    if not isinstance(arg, ast.Name):
+        return None
+    for w in ast.walk(f.node):
+        if isinstance(w, ast.While) and isinstance(w.test, ast.Name):
+            xs = w.test.id
+            for n in ast.walk(w):
+                if isinstance(n, ast.Call) and isinstance(n.func, ast.Attribute) and n.func.attr == 'append' and \
+                        isinstance(n.func.value, ast.Name) and n.func.value.id == arg.id and n.args:
+                    for p in ast.walk(n.args[0]):
+                        if isinstance(p, ast.Call) and isinstance(p.func, ast.Attribute) and p.func.attr == 'pop' and \
+                                isinstance(p.func.value, ast.Name) and p.func.value.id == xs and not p.args and not p.keywords:
+                            return (unparse(n)[:70], xs)
+    return None
 
 
 TE = 'taurex/data/profiles/temperature/'
